@@ -14,11 +14,17 @@ META = {
              "m,n<=2, shift in {0,1}, integer starts/right-hand sides in a box, unit-triangular preconditioners; a sample of "
              "size-3 problems in the thorough tier): residual invariants, orthogonality, termination within n steps, normal "
              "equations / minimum-norm solution at termination; the KKT fixed-point identity of l1 / non-negativity / box "
-             "problems constructed from x*, g, unimodular A; projections and soft-thresholding as exact lattice maps; "
+             "problems constructed from x*, g, unimodular A (boxes with finite, one-sided = infinite, unbounded and per-component "
+             "mixed bounds; the certificate x*, g stays finite); projections and soft-thresholding as exact lattice maps, the box "
+             "projection as the componentwise piecewise map x<lower -> lower, x>upper -> upper, else x over extended-real bounds "
+             "('Inf'/'-Inf' sentinels) with its laws (finite image, idempotent, identity on the box, nearest point, closed forms, "
+             "documented defaults lower 0 / upper 1); "
              "Levenberg-Marquardt problems with known stationary points; the SciPy-wrapper relation.  The harness replays every "
              "emitted problem into cuqi.solver: per-iteration conformance of CGLS/PCGLS through the operator callable (the vectors "
              "A(.,1)/A(.,2) are applied to), final solutions in matrix and function form, iteration counts, FISTA/ISTA and LM end "
-             "points against x*, projections/prox exactly, wrappers against SciPy called directly."),
+             "points against x* (proximal map = ProjectBox / RegularizedGaussian box preset with the spec's possibly infinite "
+             "bounds), projections/prox exactly (ProjectBox with bounds omitted / None / float / ndarray / list, positional and "
+             "keyword, and the RegularizedGaussian presets), wrappers against SciPy called directly."),
     "note": ("Bounded sizes (n <= 3). Problems whose exact CG iterates exceed TLC's 32-bit integers are followed up to that point "
              "and then compared through their exact solution only (status 'abandoned' in the emitted case). FISTA/LM tolerances are "
              "derived from the solvers' own stopping rules (abstol/(t mu), gradtol |g0|)."),
@@ -38,6 +44,19 @@ def _q(q):
 
 def _qv(v):
     return np.array([_q(q) for q in v], dtype=float)
+
+
+def _qe(q):
+    """extended real of the spec: a rational <<n, d>> or the sentinel "Inf" / "-Inf" (bound of a one-sided box)"""
+    if q == "Inf":
+        return float("inf")
+    if q == "-Inf":
+        return float("-inf")
+    return _q(q)
+
+
+def _qev(v):
+    return np.array([_qe(q) for q in v], dtype=float)
 
 
 def _solver_mod():
@@ -189,36 +208,77 @@ def _regularized_gaussian(**kw):
         return cuqi.implicitprior.RegularizedGaussian(np.zeros(2), 1.0, **kw)
 
 
+def _bound_forms(form, vec):
+    """The ways one bound of the spec's box is handed to ProjectBox: form "none" -> left out (documented default),
+    "scalar" -> one float (possibly +-inf) and the equivalent constant array, "vector" -> ndarray and list."""
+    if form == "none":
+        return [("none", None)]
+    if form == "scalar":
+        return [("float", float(vec[0])), ("array", vec.copy())]
+    return [("array", vec.copy()), ("list", [float(t) for t in vec])]
+
+
+def _box_calls(S, c, x):
+    """[(call-site, thunk)] for one box case; the bounds (lo, up: effective bounds, form: how they are passed) come from
+    the spec.  A bound with form "none" is left out (keyword call) or passed as None (positional call): the docstring of
+    ProjectBox defines `Zero if None` / `One if None`."""
+    lo, up = _qev(c["lo"]), _qev(c["up"])
+    lf, uf = c["form"]
+    name = c["box"]
+    calls = []
+    for i, (ln, L) in enumerate(_bound_forms(lf, lo)):
+        for j, (un, U) in enumerate(_bound_forms(uf, up)):
+            if i != j and lf == uf:
+                continue                       # same representation for both bounds unless their forms differ
+            tag = "%s.%s-%s" % (name, ln, un)
+            kw = {}
+            if L is not None:
+                kw["lower"] = L
+            if U is not None:
+                kw["upper"] = U
+            calls.append(("ProjectBox.%s.kw" % tag, (lambda kw=kw: S.ProjectBox(x.copy(), **kw))))
+            calls.append(("ProjectBox.%s" % tag, (lambda L=L, U=U: S.ProjectBox(x.copy(), L, U))))
+            if "list" not in (ln, un):
+                rkw = {}
+                if L is not None:
+                    rkw["lower_bound"] = L
+                if U is not None:
+                    rkw["upper_bound"] = U
+                calls.append(("RegularizedGaussian.box.%s" % tag,
+                              (lambda rkw=rkw: _regularized_gaussian(constraint="box", **rkw).proximal(x.copy(), 0.7))))
+    return calls
+
+
 def check_prox(ctx, S, c):
     x = _qv(c["x"])
     out = _qv(c["out"])
     gam, lam = _q(c["gam"]), _q(c["lam"])
     op = c["op"]
-    got = []          # (call-site, value)
+    calls = []          # (call-site, thunk)
     if op == "nonneg":
-        got.append(("ProjectNonnegative", S.ProjectNonnegative(x.copy())))
-        got.append(("RegularizedGaussian.nonnegativity", _regularized_gaussian(constraint="nonnegativity").proximal(x.copy(), 0.7)))
+        calls.append(("ProjectNonnegative", lambda: S.ProjectNonnegative(x.copy())))
+        calls.append(("RegularizedGaussian.nonnegativity",
+                      lambda: _regularized_gaussian(constraint="nonnegativity").proximal(x.copy(), 0.7)))
     elif op == "box":
-        lo, up = _qv(c["lo"]), _qv(c["up"])
-        if c["box"] == "default":
-            got.append(("ProjectBox.default", S.ProjectBox(x.copy())))
-            got.append(("RegularizedGaussian.box.default", _regularized_gaussian(constraint="box").proximal(x.copy(), 0.7)))
-        else:
-            got.append(("ProjectBox.%s" % c["box"], S.ProjectBox(x.copy(), lo, up)))
-            got.append(("ProjectBox.%s.kw" % c["box"], S.ProjectBox(x.copy(), lower=lo, upper=up)))
-            if c["box"] == "scalar":
-                got.append(("ProjectBox.scalar.bcast", S.ProjectBox(x.copy(), float(lo[0]), float(up[0]))))
-            got.append(("RegularizedGaussian.box.%s" % c["box"],
-                        _regularized_gaussian(constraint="box", lower_bound=lo, upper_bound=up).proximal(x.copy(), 0.7)))
+        calls = _box_calls(S, c, x)
     elif op == "l1":
-        got.append(("ProximalL1", S.ProximalL1(x.copy(), gam)))
-        got.append(("RegularizedGaussian.l1.default", _regularized_gaussian(regularization="l1").proximal(x.copy(), gam)))
+        calls.append(("ProximalL1", lambda: S.ProximalL1(x.copy(), gam)))
+        calls.append(("RegularizedGaussian.l1.default", lambda: _regularized_gaussian(regularization="l1").proximal(x.copy(), gam)))
     elif op == "l1s":
-        got.append(("RegularizedGaussian.l1.strength", _regularized_gaussian(regularization="l1", strength=lam).proximal(x.copy(), gam)))
-    for site, v in got:
+        calls.append(("RegularizedGaussian.l1.strength",
+                      lambda: _regularized_gaussian(regularization="l1", strength=lam).proximal(x.copy(), gam)))
+    for site, thunk in calls:
         # trivial: the map leaves the input where it is (a point of the set / below no threshold)
         ctx.case(("prox", site, c["x"], c["gam"], c["lam"], c["box"]), nontrivial=not np.array_equal(x, out), facet="prox/" + op)
-        v = np.asarray(v, dtype=float)
+        try:
+            with warnings.catch_warnings():
+                warnings.simplefilter("ignore")
+                with np.errstate(all="ignore"):
+                    v = np.asarray(thunk(), dtype=float)
+        except Exception as e:
+            ctx.mismatch("prox/%s/%s/raises" % (op, site), c, "%s raised %r on an admissible input (finite point; bounds lower <= upper, "
+                         "possibly infinite)" % (site, e), expected=out, observed=repr(e))
+            continue
         if v.shape != out.shape or not np.array_equal(v, out):
             ctx.mismatch("prox/%s/%s" % (op, site), c, "%s is not the exact Euclidean projection / proximal map" % site,
                          expected=out, observed=v)
@@ -227,7 +287,7 @@ def check_prox(ctx, S, c):
 # ----------------------------------------------------------------------------------------------------------
 # proximal gradient on problems constructed from their KKT system
 def _prox_of(S, c, variant):
-    lam, lo, up = _q(c["lam"]), _q(c["lo"]), _q(c["up"])
+    lam = _q(c["lam"])
     n = c["n"]
     if c["h"] == "l1":
         if variant == 0 and lam == 1.0:
@@ -240,7 +300,17 @@ def _prox_of(S, c, variant):
         return (lambda z, t: S.ProximalL1(z, t * lam)), "ProximalL1*lam"
     if c["h"] == "nonneg":
         return (lambda z, t: S.ProjectNonnegative(z)), "ProjectNonnegative"
-    return (lambda z, t: S.ProjectBox(z, lo * np.ones(n), up * np.ones(n))), "ProjectBox"
+    # box: bounds of the spec, possibly "Inf" / "-Inf" (one-sided / unbounded box)
+    lo, up = _qev(c["lo"]), _qev(c["up"])
+    if variant == 1:
+        import cuqi
+        with contextlib.redirect_stdout(io.StringIO()):
+            rg = cuqi.implicitprior.RegularizedGaussian(np.zeros(n), 1.0, constraint="box", lower_bound=lo, upper_bound=up)
+        return rg.proximal, "RegularizedGaussian.box"
+    if variant == 2 and c["bform"] == "scalar":
+        l0, u0 = float(lo[0]), float(up[0])
+        return (lambda z, t: S.ProjectBox(z, l0, u0)), "ProjectBox.scalar"
+    return (lambda z, t: S.ProjectBox(z, lo, up)), "ProjectBox"
 
 
 def check_kkt(ctx, S, c, idx, thorough):
@@ -590,8 +660,13 @@ def run(ctx):
         ex = [c for c in cases if c["kind"] == k]
         c = ex[len(ex) // 2]
         ctx.sample({"case": c if k != "lm" else {kk: c[kk] for kk in ("kind", "fam", "B", "c", "a", "d", "stat")}})
+    inf_box = [c for c in cases if c["kind"] == "kkt" and c["h"] == "box" and ("Inf" in c["up"] or "-Inf" in c["lo"])]
+    if not inf_box or not any(c["kind"] == "prox" and c["op"] == "box" and ("Inf" in c["up"] or "-Inf" in c["lo"]) for c in cases):
+        raise MachineryError("Solvers emitted no box with an infinite bound (prox / kkt): the one-sided facet would be vacuous")
+    ctx.sample({"case": inf_box[len(inf_box) // 2]})
     ctx.rule = ("one case per problem emitted by TLC from Solvers.tla (cg: A, b, x0, shift, P with the exact rational vectors of every "
-                "operator application and the exact solution; prox: lattice input with exact output; kkt: A, b, x*, g, regulariser, "
+                "operator application and the exact solution; prox: lattice input with exact output, boxes with finite / infinite / "
+                "default bounds in every documented way of passing them; kkt: A, b, x*, g, regulariser (incl. one-sided boxes), "
                 "steps; lm: family with its stationary points and starts; wrap: wrapper x method x objective); distinct = problem x "
                 "call-site / operator form / solver variant; trivial (not counted) = cg start that already solves the normal "
                 "equations, prox input that is its own image, proximal-gradient run started at the fixed point, LM start that is "
